@@ -95,6 +95,12 @@ def run(run: core.Run, tier: str):
       "call) compared with a fresh twin; tensors of rank 0..5 with unit dimensions, tf.Variable inputs; numeric options "
       "as numpy scalars / 0-d arrays / tf.constant / tf.Variable; set_internal_sigmoid modes in both orders, "
       "learning phase 1 without the flag, channels_first; "
+      "round 3: histories that CHANGE the option a __call__ reads — binary / ternary / stochastic_* x 24 alpha histories "
+      "(_set_trainable_parameter, assignments in both directions, deepcopy / from_config afterwards, the real layer route "
+      "for QDense / QConv1D / QConv2D / QDepthwiseConv2D / QSeparableConv2D incl. shared and string-given quantizers) tied "
+      "to the Lean OBJECT model (driver op binter_hist), judged by the surrogate of the alpha now in force and against a "
+      "fresh twin; the sampling routes after the hook; quantized_bits / quantized_linear alpha None -> hook; every other "
+      "option of every class assigned after construction with another value (attr_history); "
       "non-trivial = distinct (configuration, input)")
   F32 = lambda v: F(float(np.float32(v)))
   lines, meta = [], []
@@ -563,7 +569,7 @@ def run(run: core.Run, tier: str):
       kw = dict(bits=bits, symmetric=sym, use_stochastic_rounding=stoch)
       if real:
         kw["use_real_" + opn] = True
-      kw.update({k: v for k, v in o.items() if k in ("use_stochastic_rounding",)})
+      kw.update({k: v for k, v in o.items() if k in ("use_stochastic_rounding", "bits", "symmetric", "use_real_" + opn)})
       return getattr(Q, cls)(**kw)
 
     def extra(xs, y1):
@@ -952,6 +958,285 @@ def run(run: core.Run, tier: str):
                 surrogate=("linear_clip_s", (F(-L), F(L), qf, qs.ravel())), key=dict(cls=cls, alpha=alpha),
                 pre=(ys.ravel(), gs.ravel()), mix=(qf, y1.ravel(), "identity"))
           run.count("history_auto")
+
+    # ---------------------------------------------------------------------------------------------------
+    # stream `alpha_history` (seed C06-7): the surrogate is a function of the CURRENT alpha.  ONE binary /
+    # ternary / stochastic_binary / stochastic_ternary object goes through a history that CHANGES alpha —
+    # `_set_trainable_parameter()` (None -> 'auto_po2'), plain assignments in both directions, earlier calls on
+    # other tensors, being handed to a real layer (QDense / QConv1D / QConv2D / QDepthwiseConv2D /
+    # QSeparableConv2D call the hook in __init__; the quantizer is then `layer.<kernel>_quantizer_internal`),
+    # shared by two layers, given as a string, deep-copied / rebuilt from its config afterwards — and is then
+    # called under a tape.  (value, gradient) must be (a) the Lean object model's `HObj.run … btCall` for the
+    # same history (driver op `binter_hist`), (b) the surrogate' of the alpha NOW in force (tanh' iff None,
+    # else exactly 1) and (c) bit-identical to a FRESH twin constructed with the attributes now in force.
+    # ---------------------------------------------------------------------------------------------------
+    import copy
+    import qkeras as QK
+
+    def tanh_oracle(xflat):
+      xt = tf.constant(np.asarray(xflat, dtype=np.float32))
+      with tf.GradientTape() as tape:
+        tape.watch(xt)
+        th = tf.tanh(xt)
+      return np.asarray(th, dtype=np.float32), np.asarray(tape.gradient(th, xt), dtype=np.float32)
+
+    def alpha_js(a):
+      return None if a is None else (a if isinstance(a, str) else core.rj(float(a)))
+
+    def replay_alpha(a0, steps):
+      a, ops = a0, []
+      for st in steps:
+        if st[0] in ("trainable", "layer"):
+          a = "auto_po2" if a is None else a
+          ops.append("trainable")
+        elif st[0] == "set":
+          a = st[1]
+          ops.append({"alpha": alpha_js(a)})
+        elif st[0] == "call":
+          ops.append("call")
+      return a, ops
+
+    LAYERS = {
+        "QDense": (lambda kq: QK.QDense(4, kernel_quantizer=kq), (None, 6), ["kernel_quantizer_internal"]),
+        "QConv1D": (lambda kq: QK.QConv1D(3, 2, kernel_quantizer=kq), (None, 5, 3), ["kernel_quantizer_internal"]),
+        "QConv2D": (lambda kq: QK.QConv2D(4, (2, 2), kernel_quantizer=kq), (None, 5, 5, 3), ["kernel_quantizer_internal"]),
+        "QDepthwiseConv2D": (lambda kq: QK.QDepthwiseConv2D((2, 2), depthwise_quantizer=kq), (None, 5, 5, 3),
+                             ["depthwise_quantizer_internal"]),
+        "QSeparableConv2D": (lambda kq: QK.QSeparableConv2D(3, (2, 2), depthwise_quantizer=kq, pointwise_quantizer=kq),
+                             (None, 5, 5, 3), ["depthwise_quantizer_internal", "pointwise_quantizer_internal"]),
+    }
+    bt_classes = [("binary", {}), ("ternary", {}), ("stochastic_binary", {}), ("stochastic_ternary", {}),
+                  ("binary", dict(use_01=True)), ("ternary", dict(number_of_unrolls=2)),
+                  ("binary", dict(use_stochastic_rounding=True))]
+    # (name, alpha at construction, steps, how the object reaches the tape)
+    bt_histories = [
+        ("set_trainable", None, [("trainable",)], "same"),
+        ("call_then_set_trainable", None, [("call",), ("trainable",)], "same"),
+        ("set_trainable_twice", None, [("trainable",), ("call",), ("trainable",)], "same"),
+        ("const_then_assign_None", 0.5, [("set", None)], "same"),
+        ("auto_call_then_assign_None", "auto", [("call",), ("set", None)], "same"),
+        ("None_assign_auto_assign_None_call_set_trainable", None, [("set", "auto"), ("set", None), ("call",), ("trainable",)], "same"),
+        ("auto_po2_then_assign_const", "auto_po2", [("call",), ("set", 2.0)], "same"),
+        ("None_assign_const_then_set_trainable", None, [("set", 1.0), ("trainable",)], "same"),
+        ("const_set_trainable", 0.5, [("trainable",), ("call",)], "same"),
+        ("set_trainable_then_assign_None", None, [("trainable",), ("call",), ("set", None)], "same"),
+        ("None_assign_auto", None, [("call",), ("set", "auto")], "same"),
+        ("set_trainable_then_deepcopy", None, [("trainable",)], "deepcopy"),
+        ("assign_None_then_deepcopy", 1.0, [("call",), ("set", None)], "deepcopy"),
+        ("set_trainable_then_from_config", None, [("call",), ("trainable",)], "from_config"),
+        ("layer:QDense", None, [("layer", "QDense")], "same"),
+        ("used_then_layer:QConv2D", None, [("call",), ("layer", "QConv2D")], "same"),
+        ("layer:QConv1D", None, [("layer", "QConv1D")], "same"),
+        ("layer:QDepthwiseConv2D", None, [("layer", "QDepthwiseConv2D")], "same"),
+        ("layer:QSeparableConv2D", None, [("layer", "QSeparableConv2D")], "same"),
+        ("shared_by_two_layers", None, [("layer", "QDense"), ("call",), ("layer", "QConv2D")], "same"),
+        ("layer_then_assign_None", None, [("layer", "QDense"), ("set", None)], "same"),
+        ("const_layer", 0.5, [("layer", "QDense")], "same"),
+        ("string_to_layer:QDense", None, [("layer", "QDense")], "string"),
+        ("string_to_layer:QConv2D", None, [("layer", "QConv2D")], "string"),
+    ]
+    for ci_, (cls, ckw) in enumerate(bt_classes):
+      for hi_, (hname, a0, steps, route) in enumerate(bt_histories):
+        if tier == "quick" and ckw and hi_ % 3 != ci_ % 3:
+          continue                                   # option variants of a class: a third of the histories each
+        kw0 = dict(ckw, alpha=a0)
+        label = "%s(%s) [history %s%s]" % (cls, ",".join("%s=%s" % kv for kv in kw0.items()), hname,
+                                           "" if route == "same" else ", then " + route)
+        key = dict(cls=cls, stream="alpha_history", variant=hname.split(":")[0])
+        spec_ = dict(key=key, label=label)
+        with guard(spec_, "alpha_history"):
+          now, ops = replay_alpha(a0, steps)
+          strq = None
+          if route == "string":
+            strq = "%s(%s)" % (cls, ",".join("%s=%r" % kv for kv in ckw.items()))
+            q = None
+          else:
+            q = getattr(Q, cls)(**kw0)
+          for st in steps:
+            if st[0] == "trainable":
+              q._set_trainable_parameter()
+            elif st[0] == "set":
+              q.alpha = st[1]
+            elif st[0] == "call":
+              grad_of(q, short_dyadics(rng, 12, -2, 2).reshape(2, 3, 2) + np.float32(0.0078125))
+            elif st[0] == "layer":
+              mk, ishape, names = LAYERS[st[1]]
+              lay = mk(strq if route == "string" else q)
+              lay.build(ishape)
+              qi = getattr(lay, names[-1])
+              if route == "string":
+                q = qi
+              elif qi is not q:
+                run.count("alpha_history_layer_holds_another_object")
+                q = qi
+          if route == "deepcopy":
+            q = copy.deepcopy(q)
+          elif route == "from_config":
+            q = getattr(Q, cls).from_config(q.get_config())
+          x2 = short_dyadics(rng, 24, -2, 2).reshape(8, 3) * np.array([1.0, 0.25, 4.0], dtype=np.float32)
+          x2 = np.where(x2 == 0, np.float32(0.5), x2).astype(np.float32)
+          x2[0, 0], x2[1, 1], x2[2, 2] = 2.5, -3.0, 6.0          # tanh' far from 1: ~0.027, ~0.0099, ~2e-5
+          w = po2w(x2.shape)
+          ys, gs = measure(q, x2, w)
+          th, dth = tanh_oracle(x2.ravel())
+          add("binter_hist", dict(alpha0=alpha_js(a0)), None, x2.ravel(),
+              dict(hist=ops, xqs=core.enc_list(ys.ravel()), ths=core.enc_list(th), dths=core.enc_list(dth)),
+              label=label, surrogate=(("tanh", dth) if now is None else ("scaled_identity", F(1))), key=key,
+              pre=(ys.ravel(), gs.ravel()))
+          ys2, gs2 = measure(getattr(Q, cls)(**dict(ckw, alpha=now)), x2, w)
+          if not (np.array_equal(ys, ys2) and np.array_equal(gs, gs2)):
+            i = int(np.argmax(((ys != ys2) | (gs != gs2)).ravel()))
+            run.violate("history_twin", key,
+                        {"config": label, "alpha_now": str(now), "x": float(x2.ravel()[i]),
+                         "value_grad_after_history": [float(ys.ravel()[i]), float(gs.ravel()[i])],
+                         "value_grad_fresh_twin": [float(ys2.ravel()[i]), float(gs2.ravel()[i])]}, mirrored=False)
+          if getattr(q, "alpha", None) != now and not (isinstance(now, float) and float(q.alpha) == now):
+            run.violate("history_attr", key, {"config": label, "alpha_expected": str(now), "alpha_of_object": str(q.alpha)},
+                        mirrored=False)
+          run.count("alpha_history_now_%s" % ("None" if now is None else now if isinstance(now, str) else "const"), x2.size)
+          run.count("stream_alpha_history", x2.size)
+    # the sampling routes (learning phase 1) of stochastic_binary / stochastic_ternary / bernoulli after the hook, and
+    # bernoulli in both phases: identity surrogate; twin under the same fixed draws
+    for cls in ("stochastic_binary", "stochastic_ternary", "bernoulli"):
+      for hname, steps in (("set_trainable", [("trainable",)]), ("call_then_set_trainable", [("call",), ("trainable",)]),
+                           ("layer:QDense", [("layer", "QDense")])):
+        for phase in ((0, 1) if cls == "bernoulli" else (1,)):
+          label = "%s() [history %s, learning_phase=%d]" % (cls, hname, phase)
+          key = dict(cls=cls, stream="alpha_history", variant=hname.split(":")[0], phase=phase)
+          with guard(dict(key=key, label=label), "alpha_history"):
+            q = getattr(Q, cls)()
+            x2 = short_dyadics(rng, 24, -2, 2).reshape(8, 3) * np.array([1.0, 0.25, 4.0], dtype=np.float32)
+            x2 = np.where(x2 == 0, np.float32(0.5), x2).astype(np.float32)
+            x2[0, 0], x2[1, 1] = 2.5, -3.0
+            w = po2w(x2.shape)
+            U = draws(x2.size)
+            for st in steps:
+              if st[0] == "trainable":
+                q._set_trainable_parameter()
+              elif st[0] == "call":
+                measure(q, x2[:4], phase=0, U=U)
+              else:
+                lay = LAYERS[st[1]][0](q)
+                lay.build(LAYERS[st[1]][1])
+                q = lay.kernel_quantizer_internal
+            ys, gs = measure(q, x2, w, phase=phase, U=U)
+            th, dth = tanh_oracle(x2.ravel())
+            add("binter_hist", dict(alpha0=None), None, x2.ravel(),
+                dict(hist=["trainable"], xqs=core.enc_list(ys.ravel()), ths=core.enc_list(th), dths=core.enc_list(dth)),
+                label=label, surrogate=("scaled_identity", F(1)), key=key, pre=(ys.ravel(), gs.ravel()))
+            ys2, gs2 = measure(getattr(Q, cls)(alpha="auto_po2"), x2, w, phase=phase, U=U)
+            if not (np.array_equal(ys, ys2) and np.array_equal(gs, gs2)):
+              i = int(np.argmax(((ys != ys2) | (gs != gs2)).ravel()))
+              run.violate("history_twin", key,
+                          {"config": label, "alpha_now": "auto_po2", "x": float(x2.ravel()[i]),
+                           "value_grad_after_history": [float(ys.ravel()[i]), float(gs.ravel()[i])],
+                           "value_grad_fresh_twin": [float(ys2.ravel()[i]), float(gs2.ravel()[i])]}, mirrored=False)
+            run.count("stream_alpha_history_sampling", x2.size)
+    # quantized_bits / quantized_linear: alpha None -> `_set_trainable_parameter()` (also through a layer) -> the
+    # auto_po2 branch (symmetric forced); tied to the auto-scaled transcriptions, judged by the identity / clip
+    # clauses and compared with a fresh alpha='auto_po2' twin
+    for cls in ("quantized_bits", "quantized_linear"):
+      for hname in ("set_trainable", "call_then_set_trainable", "layer:QDense", "layer:QConv2D"):
+        for qf in (F(1), F(1, 4)):
+          bits, integer = 4, (2 if cls == "quantized_bits" else 0)
+          L = 2 ** (bits - 1) - 1
+          label = "%s(%d,%d,alpha=None,qnoise_factor=%s) on a 12x3 tensor [history %s]" % (cls, bits, integer, qf, hname)
+          key = dict(cls=cls, alpha="auto_po2", stream="alpha_history", variant=hname.split(":")[0])
+          with guard(dict(key=key, label=label), "alpha_history"):
+            ks = [int(k) for k in rng.integers(-3, 4, size=3)]
+            x2 = crafted(3, 12, L, ks)
+            w = po2w(x2.shape)
+            q = getattr(Q, cls)(bits, integer, qnoise_factor=float(qf))
+            if hname.startswith("call"):
+              grad_of(q, (x2[:4] * 8).astype(np.float32))
+            if hname.startswith("layer"):
+              lay = LAYERS[hname.split(":")[1]][0](q)
+              lay.build(LAYERS[hname.split(":")[1]][1])
+              q = lay.kernel_quantizer_internal
+            else:
+              q._set_trainable_parameter()
+            ys, gs = measure(q, x2, w)
+            tw = getattr(Q, cls)(bits, integer, 1, alpha="auto_po2", qnoise_factor=float(qf))
+            ys2, gs2 = measure(tw, x2, w)
+            y1 = value_of(getattr(Q, cls)(bits, integer, 1, alpha="auto_po2"), x2)
+            if cls == "quantized_bits":
+              S = np.broadcast_to(np.asarray(q.scale, dtype=np.float32), x2.shape)
+              add("bits_auto", dict(bits=bits, integer=integer, keep_negative=True), None, x2.ravel(),
+                  dict(use_ste=True, qf=core.rj(qf), ss=core.enc_list(S.ravel())), label=label,
+                  surrogate=("scaled_identity", F(1)), key=dict(key, use_ste=True, qf_is_1=(qf == 1)),
+                  pre=(ys.ravel(), gs.ravel()), mix=(qf, y1.ravel(), "identity"))
+            else:
+              qs = np.broadcast_to(np.asarray(q.quantization_scale, dtype=np.float32), x2.shape)
+              add("linear_s", dict(bits=bits, integer=integer, symmetric=True, keep_negative=True), None, x2.ravel(),
+                  dict(qf=core.rj(qf), qss=core.enc_list(qs.ravel())), label=label,
+                  surrogate=("linear_clip_s", (F(-L), F(L), qf, qs.ravel())), key=key,
+                  pre=(ys.ravel(), gs.ravel()), mix=(qf, y1.ravel(), "identity"))
+            if not (np.array_equal(ys, ys2) and np.array_equal(gs, gs2)):
+              i = int(np.argmax(((ys != ys2) | (gs != gs2)).ravel()))
+              run.violate("history_twin", key,
+                          {"config": label, "alpha_now": "auto_po2", "x": float(x2.ravel()[i]),
+                           "value_grad_after_history": [float(ys.ravel()[i]), float(gs.ravel()[i])],
+                           "value_grad_fresh_twin": [float(ys2.ravel()[i]), float(gs2.ravel()[i])]}, mirrored=False)
+            run.count("stream_alpha_history_fixed_point", x2.size)
+
+    # ---- stream `attr_history`: the same for EVERY option a `__call__` of the C06 model reads from `self` to choose the
+    # surrogate / the clip mask / the mixing form: the object is constructed with ANOTHER value of the option, used
+    # once, the attribute is assigned, and the next call must be the (value, gradient) of the final configuration
+    # (model tie + clauses of that configuration) and bit-identical to a fresh twin.  An option captured at
+    # construction (hoisted from `__call__` into `__init__`) fails here whichever option it is.
+    attr_cases = []
+    for ste, qf in ((True, F(1)), (False, HALF)):
+      attr_cases += [
+          (S_relu(4, 1, 2.0, True, None, ste, qf), dict(negative_slope=0.25), "negative_slope"),
+          (S_relu(4, 1, 0.0, True, None, ste, qf), dict(negative_slope=0.25), "negative_slope"),
+          # … in each of the three x_u branches (quantized clip | relu_upper_bound | unbounded)
+          (S_relu(4, 1, 2.0, False, None, ste, qf), dict(negative_slope=0.25), "negative_slope"),
+          (S_relu(4, 1, 0.0, False, None, ste, qf), dict(negative_slope=0.5), "negative_slope"),
+          (S_relu(4, 1, 4.0, False, 1.5, ste, qf), dict(negative_slope=0.25), "negative_slope"),
+          (S_relu(4, 1, 0.25, False, 1.5, ste, qf), dict(negative_slope=0.0), "negative_slope"),
+          (S_relu(4, 2, 0.5, False, 3.0, ste, qf), dict(relu_upper_bound=1.5), "relu_upper_bound"),
+          (S_relu(4, 1, 0.5, False, 1.5, ste, qf), dict(relu_upper_bound=None), "relu_upper_bound"),
+          (S_relu(4, 1, 0.5, False, None, ste, qf), dict(relu_upper_bound=1.5), "relu_upper_bound"),
+          (S_relu(4, 1, 0.25, False, None, ste, qf), dict(is_quantized_clip=True), "is_quantized_clip"),
+          (S_relu(4, 1, 0.25, True, None, ste, qf), dict(is_quantized_clip=False), "is_quantized_clip"),
+          (S_relu(5, 2, 0.25, True, None, ste, qf), dict(bits=4, integer=1), "bits,integer"),
+          (S_relu_po2(4, 2.0, 2.0, ste, qf), dict(negative_slope=0.25), "negative_slope"),
+          (S_relu_po2(4, 2.0, 0.0, ste, qf), dict(negative_slope=4.0), "negative_slope"),
+          (S_relu_po2(4, None, 0.25, ste, qf), dict(max_value=2.0), "max_value"),
+          (S_po2(4, None, ste, qf), dict(max_value=2.0), "max_value"),
+          (S_bits(4, 1, 0, 1, None, ste, qf), dict(alpha=0.5), "alpha"),
+          (S_bits(4, 1, 0, 1, 0.5, ste, qf), dict(alpha=None), "alpha"),
+          (S_bits(4, 1, 0, 0, None, ste, qf), dict(keep_negative=1), "keep_negative"),
+          (S_bits(5, 2, 1, 1, None, ste, qf), dict(bits=4, integer=1, symmetric=0), "bits,integer,symmetric"),
+          (S_bits(4, 1, 0, 1, None, ste, qf), dict(use_ste=not ste), "use_ste"),
+          (S_linear(4, 1, 0, 1, None, qf), dict(symmetric=1), "symmetric"),
+          (S_linear(4, 1, 1, 1, None, qf), dict(symmetric=0), "symmetric")]
+    attr_cases += [(S_act("tanh", 4, 0, True), dict(use_real_tanh=False), "use_real_tanh"),
+                   (S_act("tanh", 4, 0, False), dict(use_real_tanh=True), "use_real_tanh"),
+                   (S_act("sigmoid", 4, 1, True), dict(use_real_sigmoid=False), "use_real_sigmoid"),
+                   (S_act("sigmoid", 4, 1, False), dict(symmetric=0), "symmetric"),
+                   (S_act("tanh", 3, 1, False), dict(bits=5, symmetric=0), "bits,symmetric")]
+    for spec, init_over, what in attr_cases:
+      with guard(spec, "attr_history:" + what):
+        xs = spec_pts(spec, 24)
+        q = spec["make"](**init_over)
+        grad_of(q, short_dyadics(rng, 12, -2, 2).reshape(2, 3, 2))
+        final = spec["make"]()
+        for a in init_over:
+          setattr(q, a, getattr(final, a))
+        ys, gs = measure(q, xs)
+        y1 = None if spec["one"] is None else value_of(spec["make"](**spec["one"]), xs)
+        emit(spec, xs, ys, gs, y1, " [history: constructed with %s, used on a 2x3x2 tensor, then %s assigned]" % (
+            ",".join("%s=%s" % kv for kv in init_over.items()), what), keyx=dict(stream="attr_history"),
+             stream="attr_history")
+        ys2, gs2 = measure(final, xs)
+        if not (np.array_equal(ys, ys2) and np.array_equal(gs, gs2)):
+          i = int(np.argmax((ys != ys2) | (gs != gs2)))
+          run.violate("history_twin", dict(spec["key"], variant="assign:" + what),
+                      {"config": spec["label"], "history": "constructed with %s, then assigned" % init_over, "x": float(xs[i]),
+                       "value_grad_after_history": [float(ys[i]), float(gs[i])],
+                       "value_grad_fresh_twin": [float(ys2[i]), float(gs2[i])]}, mirrored=False)
+        run.count("attr_history_" + spec["cls"])
 
     # ---- stream `rank`: tensors of rank 0..5 (dimensions of size 1 included); numpy-fed tf.Variable input
     shapes = [(), (24,), (4, 6), (2, 3, 4), (2, 1, 3, 4), (1, 2, 3, 2, 2), (1,), (1, 1), (24, 1)]
